@@ -255,7 +255,8 @@ inductive Outcome (P : Params κ) (cfg : Cfg) (defs : Defs) (t : Target) (s s' :
 
 theorem buildTarget_all (P : Params κ) (cfg : Cfg) (defs : Defs) (fuel : Nat) (t : Target) (s : BState κ)
     (hm : cfg.minimal = false) : Outcome P cfg defs t s (buildTarget P cfg defs fuel t s) := by
-  unfold buildTarget
+  rw [buildTarget_all_eq P cfg defs fuel t s hm]
+  unfold buildTargetNoPre
   by_cases hd : depsOk s.st t.deps = false
   · simp only [hd, ↓reduceIte]; exact .depFailed hd rfl
   · have hd' : depsOk s.st t.deps = true := by simpa using hd
